@@ -24,6 +24,9 @@ def run(tier, seed, replay=None):
             ck.mc(DIR, "Bnb", "MC_bnb2.cfg", timeout=14400)
         cases = [drv.gen(rng) for _ in range(250 if tier == "quick" else 4000)]
         cases += [drv.gen_pairrows(rng) for _ in range(150 if tier == "quick" else 2500)]
+    hist_replay = None
+    if replay and "history" in cases[0]:
+        hist_replay, cases = cases[0], []
     res = run_tasks("milp", "run_milp", cases, timeout=120)
     trs = []
     for r, c in zip(res, cases):
@@ -32,7 +35,14 @@ def run(tier, seed, replay=None):
             r = {"A": c["A"], "b": c["b"], "c": c["c"], "n": len(c["c"]), "m": len(c["b"]), "ints": c["ints"], "cv": c["cv"], "ub": c["ub"],
                  "input": c, "events": [{"e": what, "what": "WorkerCrash"}]}
         trs.append(r)
+    if hist_replay:
+        trs.append(run_tasks("milp", "run_milp_history", [hist_replay["history"]], timeout=300)[0]["traces"][hist_replay["index"]])
     if not replay:
+        hist = [drv.gen_history(rng) for _ in range(2000 if tier == "quick" else 20000)]
+        for r in run_tasks("milp", "run_milp_history", hist, timeout=300):
+            if not isinstance(r, dict) or "traces" not in r:
+                raise tlc.MachineryError("milp history worker failed: " + str(r)[:300])
+            trs += r["traces"]
         bulk = [{"seed": rng.randint(0, 10 ** 9), "count": 300 if tier == "quick" else 5000} for _ in range(14)]
         cov = {}
         for r in run_tasks("milp", "run_milp_bulk", bulk, timeout=1200):
